@@ -35,6 +35,9 @@ def run(ctx):
         "BTreeMap/BTreeSet::from_iter = successive insertion, last entry wins (std semantics), keys compared by a strict order",
         "SliceReader and Cursor implement the same byte-source semantics (checked by the falsifier on every value); ReadAdapter is C13",
     ]
+    # regenerate the vint64 arithmetic and the limit constants / validation code from the Rust source; the equalities
+    # hand model = generated terms are theorems (Proofs/CodecGen.v, C12_gen_* in Props/C12.v)
+    ctx.rs2v(["Serde", "Limits"])
     ctx.audit_sources()
     ctx.coq_build("C12")
     if not quick:
